@@ -46,6 +46,13 @@ static const struct { long nr; const char *name; } SC[] = {
 	{ SYS_mkdir, "mkdir" }, { SYS_openat, "openat" }, { SYS_write, "write" }, { SYS_read, "read" },
 	{ SYS_close, "close" }, { SYS_newfstatat, "newfstatat" }, { SYS_getdents64, "getdents64" },
 	{ SYS_unlink, "unlink" }, { SYS_rmdir, "rmdir" }, { SYS_fdatasync, "fdatasync" },
+	/* what a rewritten runtime might use instead: other ways to write, rename, remove, create and sync */
+	{ SYS_writev, "writev" }, { SYS_pwrite64, "pwrite64" }, { SYS_pwritev, "pwritev" }, { SYS_pwritev2, "pwritev2" },
+	{ SYS_rename, "rename" }, { SYS_renameat, "renameat" }, { SYS_renameat2, "renameat2" },
+	{ SYS_unlinkat, "unlinkat" }, { SYS_mkdirat, "mkdirat" }, { SYS_open, "open" }, { SYS_creat, "creat" },
+	{ SYS_link, "link" }, { SYS_linkat, "linkat" }, { SYS_symlink, "symlink" }, { SYS_symlinkat, "symlinkat" },
+	{ SYS_truncate, "truncate" }, { SYS_ftruncate, "ftruncate" }, { SYS_fsync, "fsync" }, { SYS_fallocate, "fallocate" },
+	{ SYS_sendfile, "sendfile" }, { SYS_copy_file_range, "copy_file_range" },
 };
 #define NSC ((int) (sizeof(SC) / sizeof(SC[0])))
 
@@ -56,6 +63,7 @@ static const struct { int e; const char *n, *d; } ERR[] = {
 	{ EBADF, "EBADF", "Bad file descriptor" }, { ENOTEMPTY, "ENOTEMPTY", "Directory not empty" },
 	{ EISDIR, "EISDIR", "Is a directory" }, { ENOTDIR, "ENOTDIR", "Not a directory" },
 	{ EINTR, "EINTR", "Interrupted system call" }, { EFBIG, "EFBIG", "File too large" },
+	{ EXDEV, "EXDEV", "Invalid cross-device link" },
 };
 #define NERR ((int) (sizeof(ERR) / sizeof(ERR[0])))
 
@@ -182,6 +190,81 @@ fmt_args(struct tstate *t, const struct sc_info *si)
 	case SYS_rmdir:
 		rdstr(t->tid, a[0], s, sizeof(s));
 		snprintf(t->args, sizeof(t->args), "\"%s\"", s);
+		break;
+	case SYS_writev:
+	case SYS_pwritev:
+	case SYS_pwritev2: {
+		/* fd, first bytes of the first segment, total length */
+		struct { uint64_t base, len; } iov[16];
+		size_t cnt = a[2] < 16 ? (size_t) a[2] : 16, tot = 0;
+		unsigned char b[16];
+		rdmem(t->tid, a[1], iov, cnt * sizeof(iov[0]));
+		for (size_t i = 0; i < cnt; i++)
+			tot += (size_t) iov[i].len;
+		size_t n = cnt && iov[0].len < 16 ? (size_t) iov[0].len : (cnt ? 16 : 0);
+		if (n)
+			rdmem(t->tid, iov[0].base, b, n);
+		esc(e, sizeof(e), b, n);
+		snprintf(t->args, sizeof(t->args), "%d, \"%s\"..., %llu", (int) a[0], e, (unsigned long long) tot);
+		break;
+	}
+	case SYS_pwrite64: {
+		unsigned char b[16];
+		size_t n = a[2] < 16 ? (size_t) a[2] : 16;
+		rdmem(t->tid, a[1], b, n);
+		esc(e, sizeof(e), b, n);
+		snprintf(t->args, sizeof(t->args), "%d, \"%s\"%s, %llu", (int) a[0], e, a[2] > 16 ? "..." : "", (unsigned long long) a[2]);
+		break;
+	}
+	case SYS_rename:
+	case SYS_link:
+	case SYS_symlink: {
+		char s2[300];
+		rdstr(t->tid, a[0], s, sizeof(s));
+		rdstr(t->tid, a[1], s2, sizeof(s2));
+		snprintf(t->args, sizeof(t->args), "\"%s\", \"%.250s\"", s, s2);
+		break;
+	}
+	case SYS_renameat:
+	case SYS_renameat2:
+	case SYS_linkat: {
+		char s2[300];
+		rdstr(t->tid, a[1], s, sizeof(s));
+		rdstr(t->tid, a[3], s2, sizeof(s2));
+		snprintf(t->args, sizeof(t->args), "\"%s\", \"%.250s\"", s, s2);
+		break;
+	}
+	case SYS_symlinkat: {
+		char s2[300];
+		rdstr(t->tid, a[0], s, sizeof(s));
+		rdstr(t->tid, a[2], s2, sizeof(s2));
+		snprintf(t->args, sizeof(t->args), "\"%s\", \"%.250s\"", s, s2);
+		break;
+	}
+	case SYS_unlinkat:
+	case SYS_mkdirat:
+		rdstr(t->tid, a[1], s, sizeof(s));
+		snprintf(t->args, sizeof(t->args), "\"%s\"", s);
+		break;
+	case SYS_open:
+		rdstr(t->tid, a[0], s, sizeof(s));
+		oflags(fl, sizeof(fl), a[1]);
+		snprintf(t->args, sizeof(t->args), "AT_FDCWD, \"%s\", %s", s, fl);
+		break;
+	case SYS_creat:
+		rdstr(t->tid, a[0], s, sizeof(s));
+		snprintf(t->args, sizeof(t->args), "AT_FDCWD, \"%s\", O_WRONLY|O_CREAT|O_TRUNC", s);
+		break;
+	case SYS_truncate:
+		rdstr(t->tid, a[0], s, sizeof(s));
+		snprintf(t->args, sizeof(t->args), "\"%s\", %llu", s, (unsigned long long) a[1]);
+		break;
+	case SYS_ftruncate:
+	case SYS_fsync:
+	case SYS_fallocate:
+	case SYS_sendfile:
+	case SYS_copy_file_range:
+		snprintf(t->args, sizeof(t->args), "%d, %llu, %llu", (int) a[0], (unsigned long long) a[1], (unsigned long long) a[2]);
 		break;
 	default:
 		t->args[0] = 0;
